@@ -41,14 +41,14 @@ def gen_cases(tier, seed):
     return cases
 
 
-def one_run(desc, metrics, env_extra, n_jobs=1, cache_dir=None, timeout=600):
+def one_run(desc, metrics, env_extra, n_jobs=1, cache_dir=None, timeout=600, einsum_names=None):
     os.makedirs(WORK, exist_ok=True)
     fd, inp = tempfile.mkstemp(prefix="c20-in-", suffix=".json", dir=WORK)
     os.close(fd)
     outp = inp.replace("-in-", "-out-")
     logp = inp.replace("-in-", "-log-")
     with open(inp, "w") as f:
-        json.dump({"desc": desc, "metrics": metrics, "n_jobs": n_jobs, "cache_dir": cache_dir}, f)
+        json.dump({"desc": desc, "metrics": metrics, "n_jobs": n_jobs, "cache_dir": cache_dir, "einsum_names": einsum_names}, f)
     env = dict(os.environ)
     for k in list(env):
         if k.startswith("ACCELFORGE_VERIF_SCHEDULE"):
@@ -150,6 +150,34 @@ def run_case(case):
                 {"variant": kind, "env": {k: x for k, x in env.items() if "SCHEDULE" in k or k == "PYTHONHASHSEED"}, "n_jobs": nj,
                  "rows_with_different_structure": sum(1 for a, b in zip(bcan, c) if a != b), "rows": len(c)})
     shutil.rmtree(cache, ignore_errors=True)
+    # ---- cache histories: the same cache_dir used for a DIFFERENT request first (subset of the Einsums, then all;
+    # all, then the subset). The later request must return what it returns without any cache.
+    enames = [e["name"] for e in d["workload"]["einsums"]]
+    if len(enames) >= 2:
+        sub = [enames[0]]
+        cache2 = os.path.join(WORK, f"c20-cache2-{os.getpid()}-{rnd.randrange(10**9)}")
+        one_run(d, metrics, {"PYTHONHASHSEED": "0"}, cache_dir=cache2, einsum_names=sub)
+        rec, _ = one_run(d, metrics, {"PYTHONHASHSEED": "0"}, cache_dir=cache2)
+        bump("cache_history_runs")
+        if rec.get("ok") and rec["rows"] is not None:
+            if vectors(rec["rows"]) != bvec:
+                viol.append({"sig": "front_depends_on:cache_history", "witness": {"history": ["einsum_names=" + str(sub), "all Einsums"],
+                                                                                   "baseline_front": bvec[:10], "front": vectors(rec["rows"])[:10]}})
+            elif canon(rec["rows"]) != bcan:
+                viol.append({"sig": "mapping_structure_depends_on:cache_history", "witness": {"history": ["einsum_names=" + str(sub), "all Einsums"]}})
+        elif rec.get("ok") and rec["rows"] is None:
+            viol.append({"sig": "validity_depends_on:cache_history", "witness": {"history": ["einsum_names=" + str(sub), "all Einsums"]}})
+        shutil.rmtree(cache2, ignore_errors=True)
+        cache3 = os.path.join(WORK, f"c20-cache3-{os.getpid()}-{rnd.randrange(10**9)}")
+        fresh, _ = one_run(d, metrics, {"PYTHONHASHSEED": "0"}, einsum_names=sub)
+        one_run(d, metrics, {"PYTHONHASHSEED": "0"}, cache_dir=cache3)
+        rec, _ = one_run(d, metrics, {"PYTHONHASHSEED": "0"}, cache_dir=cache3, einsum_names=sub)
+        bump("cache_history_runs")
+        if fresh.get("ok") and rec.get("ok") and fresh["rows"] is not None and rec["rows"] is not None:
+            if vectors(rec["rows"]) != vectors(fresh["rows"]):
+                viol.append({"sig": "front_depends_on:cache_history", "witness": {"history": ["all Einsums", "einsum_names=" + str(sub)],
+                                                                                   "without_cache": vectors(fresh["rows"])[:10], "front": vectors(rec["rows"])[:10]}})
+        shutil.rmtree(cache3, ignore_errors=True)
     for (what, kind), lst in per_kind.items():
         sig = (f"front_depends_on:{kind}" if what == "front" else f"mapping_structure_depends_on:{kind}")
         viol.append({"sig": sig, "witness": dict(lst[0], differing_runs=len(lst))})
